@@ -204,6 +204,55 @@ def iso (deep : Bool) (sort : List Quad → List Quad) (h : List Ev → UInt64) 
   if !bcountGate b1 b2 then some false else
   refine h d1 d2 b1 b2 fuel (initMap b1) (initMap b2) 0 0
 
+/-! ### fallible containers: `prepare_dataset(d1).map_err(SourceError)?`, `prepare_dataset(d2).map_err(SinkError)?` -/
+
+/-- `Ok(bool)` (`none` inside = loop not finished within the fuel) or the side whose traversal failed -/
+inductive Outcome where
+  | answer (b : Option Bool)
+  | sourceError
+  | sinkError
+  deriving DecidableEq, Repr
+
+/-- `d.quads().map(…).collect::<Result<Vec<_>, _>>()` is an `Err` iff the iterator yields one: the container fails
+at index `k` (`none` = never) and holds more than `k` statements -/
+def fails (f : Option Nat) (D : List Quad) : Bool :=
+  match f with
+  | some k => decide (k < D.length)
+  | none => false
+
+/-- `isomorphic_datasets` on two fallible containers (`isomorphic_graphs` = the same through `as_dataset`, which
+passes the graph's errors on): the first argument is traversed first -/
+def isoE (deep : Bool) (sort : List Quad → List Quad) (h : List Ev → UInt64) (fuel : Nat)
+    (f1 f2 : Option Nat) (D1 D2 : List Quad) : Outcome :=
+  if fails f1 D1 then .sourceError else if fails f2 D2 then .sinkError else .answer (iso deep sort h fuel D1 D2)
+
+/-! ### termination of the loop: an executable sufficient condition -/
+
+/-- During the next `k` rounds the number of colour classes of this side never decreases (`old` = the count of
+the round before).  With XOR-combined digests this is *not* automatic: a node all of whose mentioning statements
+pair up with equal hashes falls back to digest 0 and may merge with another such node.  When it holds on both
+sides the loop stops within `|b2q1| + |b2q2| + 1` rounds (`refine_terminates`); without it an adversarial hash
+function makes the loop run forever (`refine_diverges`). -/
+def monoRun (h : List Ev → UInt64) (d : List Quad) (b2q : B2Q) : Nat → CMap → Nat → Bool
+  | 0, _, _ => true
+  | k + 1, m, old =>
+    let m' := makeMap h d b2q m
+    let c := (eqClasses m').length
+    decide (old ≤ c) && monoRun h d b2q k m' c
+
+/-- number of rounds the loop runs before it answers (`none` = not within `fuel`); diagnostics only -/
+def roundsUsed (h : List Ev → UInt64) (d1 d2 : List Quad) (b1 b2 : B2Q) :
+    Nat → CMap → CMap → Nat → Nat → Option Nat
+  | 0, _, _, _, _ => none
+  | fuel + 1, map1, map2, old1, old2 =>
+    let map1' := makeMap h d1 b1 map1
+    let map2' := makeMap h d2 b2 map2
+    let e1 := eqClasses map1'
+    let e2 := eqClasses map2'
+    if e1.length == old1 && e2.length == old2 then some 1
+    else if e1.length == map1'.length && e2.length == map2'.length then some 1
+    else (roundsUsed h d1 d2 b1 b2 fuel map1' map2' e1.length e2.length).map (· + 1)
+
 /-! ### a concrete hash (the driver's instance of `h`; *not* SipHash) -/
 
 def mix (s : UInt64) (w : UInt64) : UInt64 :=
